@@ -1,9 +1,9 @@
 #!/bin/bash
-# confirms every delivered round-3 seed under /tmp/wt3/*.out/{a,b} that has not been confirmed yet; results in /verif/.scratch/seed3/confirm.log
-mkdir -p /verif/.scratch/seed3
-for d in /tmp/wt3/C*.out/a /tmp/wt3/C*.out/b; do
+# confirms every delivered seed under $WT/*.out/{a,b} (WT=/tmp/wt4 ROUND=seed4 by default) that has not been confirmed yet; results in /verif/.scratch/${ROUND:-seed4}/confirm.log
+mkdir -p /verif/.scratch/${ROUND:-seed4}
+for d in ${WT:-/tmp/wt4}/C*.out/a ${WT:-/tmp/wt4}/C*.out/b; do
   [ -f $d/patch.diff ] && [ -f $d/demo_cmd.txt ] && [ -f $d/demo_path.txt ] && [ -f $d/seed_demo_test.go.txt ] || continue
-  grep -q "CONFIRMED $d\$" /verif/.scratch/seed3/confirm.log 2>/dev/null && continue
-  /verif/tools/confirm_seed3.sh $d >> /verif/.scratch/seed3/confirm.log 2>&1
+  grep -q "CONFIRMED $d\$" /verif/.scratch/${ROUND:-seed4}/confirm.log 2>/dev/null && continue
+  /verif/tools/confirm_seed3.sh $d >> /verif/.scratch/${ROUND:-seed4}/confirm.log 2>&1
 done
-grep -c "^CONFIRMED" /verif/.scratch/seed3/confirm.log; grep "^NOT-CONFIRMED" /verif/.scratch/seed3/confirm.log
+grep -c "^CONFIRMED" /verif/.scratch/${ROUND:-seed4}/confirm.log; grep "^NOT-CONFIRMED" /verif/.scratch/${ROUND:-seed4}/confirm.log
